@@ -328,6 +328,13 @@ func c19Run(c c19Case, r *hx.Rec) error {
 			}
 		}
 	}
+	// the SPIFFE integration's way to a key (internal/spiffe, reached through the verif hook)
+	if der, cerr := c19SelfSigned(k); cerr == nil {
+		if err := c19SVID(k, der); err != nil {
+			return err
+		}
+		r.Label("svid-conversion")
+	}
 	var ka, kb intoto.Key
 	privA, explA, err := loadOne(c.A, &ka)
 	if err != nil {
@@ -549,7 +556,7 @@ func c19Negative(c c19Case, k *hx.TestKey, dir string, r *hx.Rec) error {
 func TestC19(t *testing.T) {
 	begin(t, "C19")
 	hx.Assume("keys are freshly generated once per process (not seed-controlled); expected key objects are built by the harness from crypto/x509 encodings and the reference canonical JSON, never by the library's loaders")
-	hx.Assume("internal/spiffe cannot be imported from outside the module; its conversion is the composition PKCS#8 -> LoadKeyReaderDefaults -> attach certificate, which is what is exercised")
+	hx.Assume("internal/spiffe is reached through the build-tag guarded hook package verifhooks (type alias of SVIDDetails); the workload API itself (a SPIRE agent socket) is not exercised")
 	hx.Check[c19Case]{
 		Property: "C19", Part: "keys",
 		Rule:  "fresh RSA-2048/3072, ECDSA P-224/256/384/521, Ed25519 keys x two PEM forms of the same pair (PKCS#8, PKCS#1, SEC1, PKIX, certificate) x decoration (leading text, CRLF, trailing block/text, blank lines) x loader (file/reader - the reader delivering everything at once, byte by byte, in 100-byte pieces or with EOF on the last bytes -, defaults/explicit scheme and hash list), optionally loading into a re-used Key value; identity, type, scheme, halves, cross sign/verify in both wrappers, distinctness from another pair; 1 in 5 cases is a negative (truncated, bad base64, encrypted, CSR, X25519, empty, nil reader, missing file, wrong scheme, bad hash algorithm, flipped byte); non-trivial = two different forms compared, or a negative; distinct by (kind, forms, decorations, loaders, scheme, algs)",
